@@ -241,7 +241,7 @@ META["C09"] = {
 
 META["C15"] = {
     "title": "finalize runs its callback exactly once per subscription",
-    "rule": "cases = (0-2 upstream operators incl. early-terminating ones, hot Subject or stashed create() handle as source, finalize | finalize_threads directly above the probe, history of length <= 6 quick / <= 10 thorough over item / complete / error / unsubscribe (terminals repeated through cloned handles), plain unsubscribe or guard drop). Non-trivial: the history contains at least two terminating triggers (e.g. complete then unsubscribe); distinct = hash(case). first_trigger_* counters show which event ended the subscriptions. Exhaustively, every history of length <= 4 quick / <= 5 thorough over item / unsubscribe(k<3) / complete / error on THREE subscriptions made from clones of one finalize(..) / finalize_threads(..) value over one hot subject: after every step the number of callback runs equals the number of subscriptions that have ended (counter histories_over_cloned_finalize_values). A quarter of the random cases stack a second finalize directly above the one under test (both owe their callback at the same event); over create sources a third put take(1|2)/first BELOW finalize, where the event that ends finalize's own subscription is the terminal that reaches it from above (recorded by a transparent spy), not the subscriber's. When a history unsubscribes a pipeline over a hot source, the finalize callback itself pushes one more item into that source (user code in the callback): nothing may reach the subscriber once the callback has run. Thread part also covers hot.finalize_threads(f) behind subscribe_on with the subscribing task on a worker thread and an unsubscribing thread: if the inner subscription was made (seen by a spy above finalize) and the handle was unsubscribed, the callback ran exactly once. Histories may also end without any ending event - the plain handle is merely dropped, or the source goes away without a terminal (counter histories_ending_without_any_event): the callback must then not have run (a SubscriptionGuard is not used there: dropping one is an unsubscribe). The racing-thread part (terminating thread vs unsubscribing thread) runs under the baton scheduler (thread_* counters).",
+    "rule": "cases = (0-2 upstream operators incl. early-terminating ones, hot Subject or stashed create() handle as source, finalize | finalize_threads directly above the probe, history of length <= 6 quick / <= 10 thorough over item / complete / error / unsubscribe (terminals repeated through cloned handles), plain unsubscribe or guard drop). Non-trivial: the history contains at least two terminating triggers (e.g. complete then unsubscribe); distinct = hash(case). first_trigger_* counters show which event ended the subscriptions. Exhaustively, every history of length <= 4 quick / <= 5 thorough over item / unsubscribe(k<3) / complete / error on THREE subscriptions made from clones of one finalize(..) / finalize_threads(..) value over one hot subject: after every step the number of callback runs equals the number of subscriptions that have ended (counter histories_over_cloned_finalize_values). A quarter of the random cases stack a second finalize directly above the one under test (both owe their callback at the same event); over create sources a third put take(1|2)/first BELOW finalize, where the event that ends finalize's own subscription is the terminal that reaches it from above (recorded by a transparent spy), not the subscriber's. When a history unsubscribes a pipeline over a hot source, the finalize callback itself pushes one more item into that source (user code in the callback): nothing may reach the subscriber once the callback has run. Thread part also covers hot.finalize_threads(f) behind subscribe_on with the subscribing task on a worker thread and an unsubscribing thread: if the inner subscription was made (seen by a spy above finalize) and the handle was unsubscribed, the callback ran exactly once. Histories may also end without any ending event - the plain handle is merely dropped, or the source goes away without a terminal (counter histories_ending_without_any_event): the callback must then not have run (a SubscriptionGuard is not used there: dropping one is an unsubscribe). A direct battery (counter histories_with_a_subscriber_that_panics_on_the_terminal, 8 cases, local form) has the subscriber's own handler panic while it is handed the completion / error (user code; the panic is caught around the source's call), after which the program unsubscribes, or the guard living in the scope the panic leaves is dropped by the unwinder, with one or two stacked finalize: every callback ran exactly once over the whole history. The racing-thread part (terminating thread vs unsubscribing thread) runs under the baton scheduler (thread_* counters).",
     "assumptions": COMMON_ASSUME + [
         "finalize is placed last, so 'the subscription is completed / failed' is exactly 'the probe saw the terminal'",
         "'right after' = before the next step of the history begins, and for an unsubscription before unsubscribe() returns",
@@ -250,7 +250,7 @@ META["C15"] = {
     "level_text": "Exploration over sampled histories; counter == 1 exactly after the first trigger, never before, never again.",
     "level_note": "Trusted: probe and log stamps of the harness.",
     "design_ref": "DESIGN.md §5 C15",
-    "require": {"quick": {"first_trigger_unsub": 5000, "first_trigger_error": 5000, "histories_over_cloned_finalize_values": 3000, "histories_ending_without_any_event": 20000}, "thorough": {"first_trigger_unsub": 5000, "histories_over_cloned_finalize_values": 18000}},
+    "require": {"quick": {"first_trigger_unsub": 5000, "first_trigger_error": 5000, "histories_over_cloned_finalize_values": 3000, "histories_ending_without_any_event": 20000, "histories_with_a_subscriber_that_panics_on_the_terminal": 8}, "thorough": {"first_trigger_unsub": 5000, "histories_over_cloned_finalize_values": 18000}},
 }
 
 META["C20"] = {
